@@ -156,6 +156,10 @@ fn run(sc: &Scn, w: &mut World, tr: &mut Trace, cov: &mut Cov) -> Option<Violati
     let mut first_sat_second_of_run = true;
     for (pi, ph) in sc.ops.iter().enumerate() {
         if ph.kind == 3 {
+            // idle seconds are part of the time line of half-second buckets (the window oracle looks at adjacent halves)
+            for _ in 0..(2 * ph.secs).min(4) {
+                buckets.push(0);
+            }
             sec_index += ph.secs as u64;
             idle_run_secs += ph.secs;
             sat_run = 0;
@@ -209,6 +213,9 @@ fn run(sc: &Scn, w: &mut World, tr: &mut Trace, cov: &mut Cov) -> Option<Violati
             }
             buckets.push(half[0]);
             buckets.push(half[1]);
+            if std::env::var("VERIF_DEBUG_C08").is_ok() {
+                eprintln!("C08DBG second {} kind {} allow {} admitted {} half {:?}", sec_index, ph.kind, allow, admitted, half);
+            }
             tr.word(admitted);
             tr.word(allow.to_bits());
             cov.state(admitted * 1000 + (allow as u64));
